@@ -494,3 +494,21 @@ Example C12_ex_style_alignment :
   /\ element_alignment (Some (mkSrc None [None; Some (lit "end")])) [p] (region_ta a1) (region_da a1) = Some (mkAlign (Some HEnd) (Some VCenter))
   /\ plain span.
 Proof. vm_compute. repeat split; repeat constructor. Qed.
+
+(* the link to the tree theorem: on an element without style-carried text-align (itself and its parents) the style-aware
+   scraper gives exactly the alignment of read_region of the element's region - C12_dfxp_layout_roundtrip_written is the
+   style-free instance of the style-aware reader; with a style in charge the two differ in the horizontal member only *)
+From PV Require Import proofs.Pos12StyleLinkFacts.
+Theorem C12_plain_element_is_read_region : forall e parents l r, plain e -> Forall plain parents ->
+  read_region (layout_attrs l) = Ok r ->
+  element_alignment (Some e) parents (region_ta (l_alignment l)) (region_da (l_alignment l)) = l_alignment r.
+Proof. exact plain_element_is_read_region. Qed.
+Print Assumptions C12_plain_element_is_read_region.
+
+Theorem C12_styled_element_overrides_horizontal : forall e parents l r t,
+  find_text_align (Some e) parents (region_ta (l_alignment l)) = Some (halign_name t) ->
+  read_region (layout_attrs l) = Ok r ->
+  element_alignment (Some e) parents (region_ta (l_alignment l)) (region_da (l_alignment l))
+  = Some (mkAlign (Some t) (match l_alignment r with Some a => al_v a | None => None end)).
+Proof. exact styled_element_overrides_h. Qed.
+Print Assumptions C12_styled_element_overrides_horizontal.
